@@ -2,6 +2,7 @@ import XsVerif.Driver.Util
 import XsVerif.Model.Datatypes
 import XsVerif.Model.DatatypesDate
 import XsVerif.Model.DatatypesEnc
+import XsVerif.Model.DatatypesPat
 import XsVerif.Generated.Builtins
 open Lean XsVerif.Driver XsVerif.Datatypes
 
@@ -122,6 +123,44 @@ def optNat (j : Json) (k : String) : Except String (Option Nat) :=
   | .ok v => do pure (some (← v.getNat?))
   | .error _ => pure none
 
+/-- a pattern of the regular-expression subset: `{"k":"cls","neg":b,"r":[[lo,hi],…]}`, `{"k":"cat","a":[…]}`,
+    `{"k":"alt","a":[…]}`, `{"k":"rep","r":…,"lo":n,"hi":n|null}` -/
+partial def parseRx (j : Json) : Except String CRx := do
+  let k ← getStr j "k"
+  match k with
+  | "cls" =>
+    let rs ← (← getArr j "r").toList.mapM fun e => do
+      let a ← e.getArr?
+      if h : a.size = 2 then pure ((← a[0].getNat?), (← a[1].getNat?)) else throw "range"
+    return .sym ⟨← getBool j "neg", rs⟩
+  | "cat" =>
+    let xs ← (← getArr j "a").toList.mapM parseRx
+    return match xs.reverse with
+      | [] => .eps
+      | l :: r => r.foldl (fun acc x => .cat x acc) l
+  | "alt" =>
+    let xs ← (← getArr j "a").toList.mapM parseRx
+    return match xs.reverse with
+      | [] => .empty
+      | l :: r => r.foldl (fun acc x => .alt x acc) l
+  | "rep" =>
+    let hi ← match j.getObjVal? "hi" with
+      | .ok .null => pure none
+      | .ok v => do pure (some (← v.getNat?))
+      | .error _ => pure none
+    return .rep (← parseRx (← j.getObjVal? "r")) (← (← j.getObjVal? "lo").getNat?) hi
+  | _ => throw s!"rx {k}"
+
+/-- `"rxs": [[id, [pattern, …]], …]`: the pattern groups evaluated by the model -/
+def parseTable (j : Json) : Except String PatTable :=
+  match j.getObjVal? "rxs" with
+  | .ok (.arr a) => a.toList.mapM fun e => do
+      let p ← e.getArr?
+      if h : p.size = 2 then
+        pure ((← p[0].getNat?), (← (← p[1].getArr?).toList.mapM parseRx))
+      else throw "rxs"
+  | _ => pure []
+
 partial def parseType (j : Json) : Except String SType := do
   let k ← getStr j "k"
   match k with
@@ -201,14 +240,24 @@ def handleDecode (j : Json) : Except String Json := do
     let a ← e.getArr?
     if h : a.size = 3 then pure ((← a[0].getNat?), (← strOf a[1]), (← a[2].getBool?))
     else throw "pat"
-  let P : Nat → Str → Option Bool := fun id t =>
-    (pats.find? fun e => e.1 == id && e.2.1 == t).map (·.2.2)
+  let P : Nat → Str → Option Bool := mkP (← parseTable j) pats
   let cdFix ← getBool j "cdfix"
+  -- C02-F12: `chain` = the patterns of every derivation step over a union are kept (repaired behaviour)
+  let chain := match j.getObjVal? "chain" with | .ok (.bool b) => b | _ => true
   let E : Env := { W, cdFix, P, dtCmp := dtCompare v11,
                    durLtLe := fun _ _ => none }
+  if let .ok (.arr items) := j.getObjVal? "seq" then
+    -- values of one document, decoded one after the other in one validation context
+    let its ← items.toList.mapM fun e => do
+      pure ((← parseType (← e.getObjVal? "type")), (← getS e "text"))
+    let x := decodeSeq E (conv P) chain [] its
+    return Json.mkObj [
+      ("seq", Json.arr (x.1.map fun r => Json.mkObj [("val", valJson r.val),
+        ("errs", Json.arr (r.errs.map fun e => Json.str (errStr e)).toArray)]).toArray),
+      ("slot", Json.arr (x.2.map fun (n : Nat) => Json.num (JsonNumber.fromNat n)).toArray)]
   let ty ← parseType (← j.getObjVal? "type")
   let text ← getS j "text"
-  let r := decode E (conv P) ty text
+  let r := decodeTop E (conv P) chain ty text
   return Json.mkObj [
     ("val", valJson r.val),
     ("errs", Json.arr (r.errs.map fun e => Json.str (errStr e)).toArray),
@@ -275,6 +324,10 @@ def handleOp (op : String) (j : Json) : Except String Json := do
     | some t =>
       return Json.mkObj [("ok", true), ("val", sJson t), ("len", b64Len t), ("enc", sJson (encB64 t)),
         ("reparse", match parseB64 (encB64 t) with | some u => sJson u | none => Json.null)]
+  | "rx" =>
+    -- one pattern group of the subset on one text
+    let g ← (← getArr j "g").toList.mapM parseRx
+    return Json.mkObj [("match", groupMatch g (← getS j "text"))]
   | "bool" =>
     let text ← getS j "text"
     match lookupBool XsVerif.Generated.booleanMap text with
